@@ -814,6 +814,68 @@ pub proof fn lemma_host_batched<T>(o: HostMatcher<T>, n: HostMatcher<T>, ids: Se
     assert forall|k: String| #[trigger] n.static_hosts@.contains_key(k) implies k@.len() > 0 by { assert(o.static_hosts@.contains_key(k)); }
     assert forall|x: RouteRef<T>| #[trigger] n.any_host.holds(x) implies hst_any_ok(x) by { assert(o.any_host.holds(x)); }
 }
+
+// C01 exactness of the host layer, including the any-host policy. The answer is the contract verified for HostMatcher::match_request in
+// unit rtr (same formula, membership level): host-specific candidates = regex-host buckets whose pattern matches the request host plus
+// the static bucket of exactly that host; rules bound to no host are candidates always (policy on) or only when no host-specific rule
+// of this scope was reported.
+pub uninterp spec fn req_host(q: Request) -> Option<Seq<char>>;
+pub open spec fn host_specific<T>(m: HostMatcher<T>, q: Request, x: RouteRef<T>) -> bool {
+    req_host(q) matches Some(h) && (
+        (exists|p: Seq<char>| m.regex_tree_rule.tmap().contains_key(p) && re_match(p, h) && #[trigger] sub_answers(m.regex_tree_rule.tmap()[p], q, x))
+        || (exists|k: String| k@ == h && m.static_hosts@.contains_key(k) && #[trigger] sub_answers(m.static_hosts@[k], q, x)))
+}
+pub open spec fn host_answers<T>(m: HostMatcher<T>, q: Request, x: RouteRef<T>) -> bool {
+    host_specific(m, q, x) || (sub_answers(m.any_host, q, x) && (m.always_match_any_host || !exists|y: RouteRef<T>| host_specific(m, q, y)))
+}
+// the host trigger of a rule bound to a host: its literal equals the request host, or its pattern matches it
+pub open spec fn host_sat_specific<T>(x: RouteRef<T>, q: Request) -> bool {
+    match rhost(*x) { HostKey::Static(s) => s.len() > 0 && req_host(q) == Some(s), HostKey::Dynamic(p) => req_host(q) matches Some(h) && re_match(p, h), HostKey::NoHost => false }
+}
+// statement: "Rules bound to no host obey the configured any-host policy: always candidates, or candidates only when no host-specific
+// rule with the same scheme scope matched"
+pub open spec fn host_exact<T>(m: HostMatcher<T>, q: Request, x: RouteRef<T>) -> bool {
+    m.holds(x) && sat_below(x, q) && (host_sat_specific(x, q)
+        || (hst_any_ok(x) && (m.always_match_any_host || !exists|y: RouteRef<T>| m.holds(y) && host_sat_specific(y, q) && #[trigger] sat_below(y, q))))
+}
+pub proof fn lemma_host_specific_exact<T>(m: HostMatcher<T>, q: Request, x: RouteRef<T>)
+    requires m.wf(),
+    ensures host_specific(m, q, x) <==> m.holds(x) && host_sat_specific(x, q) && sat_below(x, q),
+{
+    axiom_string_ext();
+    let t = m.regex_tree_rule.tmap(); let st = m.static_hosts@;
+    if host_specific(m, q, x) {
+        let h = req_host(q).unwrap();
+        if exists|p: Seq<char>| t.contains_key(p) && re_match(p, h) && #[trigger] sub_answers(t[p], q, x) { let p = choose|p: Seq<char>| t.contains_key(p) && re_match(p, h) && #[trigger] sub_answers(t[p], q, x); lemma_sub_exact(t[p], q); assert(t[p].holds(x)); assert(map_holds(t, x)); assert(hdy_kf::<T>()(p, x)); }
+        else { let k = choose|k: String| k@ == h && st.contains_key(k) && #[trigger] sub_answers(st[k], q, x); lemma_sub_exact(st[k], q); assert(st[k].holds(x)); assert(map_holds(st, x)); assert(hst_kf::<T>()(k, x)); assert(k@.len() > 0); }
+    }
+    if m.holds(x) && host_sat_specific(x, q) && sat_below(x, q) {
+        if m.any_host.holds(x) { assert(hst_any_ok(x)); }
+        else if map_holds(st, x) { let k = choose|k: String| st.contains_key(k) && #[trigger] st[k].holds(x); assert(hst_kf::<T>()(k, x)); lemma_sub_exact(st[k], q); assert(sub_answers(st[k], q, x)); }
+        else { let p = choose|p: Seq<char>| t.contains_key(p) && #[trigger] t[p].holds(x); assert(hdy_kf::<T>()(p, x)); lemma_sub_exact(t[p], q); assert(sub_answers(t[p], q, x)); }
+    }
+}
+pub proof fn lemma_host_exact<T>(m: HostMatcher<T>, q: Request)
+    requires m.wf(),
+    ensures forall|x: RouteRef<T>| #[trigger] host_answers(m, q, x) <==> host_exact(m, q, x),
+{
+    lemma_sub_exact(m.any_host, q);
+    assert forall|y: RouteRef<T>| host_specific(m, q, y) <==> m.holds(y) && host_sat_specific(y, q) && #[trigger] sat_below(y, q) by { lemma_host_specific_exact(m, q, y); }
+    assert forall|x: RouteRef<T>| #[trigger] host_answers(m, q, x) <==> host_exact(m, q, x) by {
+        lemma_host_specific_exact(m, q, x);
+        if sub_answers(m.any_host, q, x) { assert(m.any_host.holds(x)); assert(hst_any_ok(x)); }
+        if (exists|y: RouteRef<T>| host_specific(m, q, y)) { let y = choose|y: RouteRef<T>| host_specific(m, q, y); lemma_host_specific_exact(m, q, y); assert(m.holds(y) && host_sat_specific(y, q) && sat_below(y, q)); }
+        if (exists|y: RouteRef<T>| m.holds(y) && host_sat_specific(y, q) && #[trigger] sat_below(y, q)) { let y = choose|y: RouteRef<T>| m.holds(y) && host_sat_specific(y, q) && #[trigger] sat_below(y, q); lemma_host_specific_exact(m, q, y); assert(host_specific(m, q, y)); }
+        if host_exact(m, q, x) && !host_sat_specific(x, q) {
+            // a rule bound to no host is stored in the any-host bucket (bucket-key consistency)
+            if !m.any_host.holds(x) {
+                if map_holds(m.static_hosts@, x) { let k = choose|k: String| m.static_hosts@.contains_key(k) && #[trigger] m.static_hosts@[k].holds(x); assert(hst_kf::<T>()(k, x)); assert(k@.len() > 0); }
+                else { let p = choose|p: Seq<char>| m.regex_tree_rule.tmap().contains_key(p) && #[trigger] m.regex_tree_rule.tmap()[p].holds(x); assert(hdy_kf::<T>()(p, x)); }
+            }
+            assert(sub_answers(m.any_host, q, x));
+        }
+    }
+}
 impl<T> HostMatcher<T> {
     //@@ fn src/router/request_matcher/host.rs :: impl <T>HostMatcher<T> / fn new -> r
     //@| ensures r.wf(), r.cnt() == 0, forall|x: RouteRef<T>| !r.holds(x),
@@ -1639,6 +1701,50 @@ pub proof fn lemma_hdr_batched<T>(o: HeaderMatcher<T>, n: HeaderMatcher<T>, ids:
     lemma_hdr_counted_sub(o, n, false);
     assert forall|x: RouteRef<T>| #[trigger] n.any_header.holds(x) implies rheaders(*x).len() == 0 by { assert(o.any_header.holds(x)); }
 }
+
+// C01 exactness of the header layer. The answer is the membership-exact contract verified for HeaderMatcher::match_request in unit rtr
+// (same formula): the no-header bucket, plus every group ALL of whose conditions hold (cond_true: unit rtr's condition semantics).
+pub uninterp spec fn cond_true(c: HeaderCondition, q: Request) -> bool;
+pub open spec fn group_true(cs: Set<HeaderCondition>, q: Request) -> bool { forall|c: HeaderCondition| cs.contains(c) ==> #[trigger] cond_true(c, q) }
+pub open spec fn header_answers<T>(m: HeaderMatcher<T>, q: Request, x: RouteRef<T>) -> bool {
+    sub_answers(m.any_header, q, x) || exists|cs: BTreeSet<HeaderCondition>| m.condition_groups@.contains_key(cs) && group_true(cs@, q) && #[trigger] sub_answers(m.condition_groups@[cs], q, x)
+}
+// the header triggers of a rule: every trigger's denoted condition holds
+pub open spec fn hdr_trigger_sat(h: RouteHeader, q: Request) -> bool { forall|c: HeaderCondition| is_cond_of(c, h) ==> #[trigger] cond_true(c, q) }
+pub open spec fn header_sat<T>(x: RouteRef<T>, q: Request) -> bool { forall|i: int| 0 <= i < rheaders(*x).len() ==> hdr_trigger_sat(#[trigger] rheaders(*x)[i], q) }
+pub proof fn lemma_group_sat(k: Set<HeaderCondition>, hs: Seq<RouteHeader>, q: Request)
+    requires group_of(k, hs),
+    ensures group_true(k, q) <==> forall|i: int| 0 <= i < hs.len() ==> hdr_trigger_sat(#[trigger] hs[i], q),
+{
+    if group_true(k, q) {
+        assert forall|i: int| 0 <= i < hs.len() implies hdr_trigger_sat(#[trigger] hs[i], q) by {
+            assert forall|c: HeaderCondition| is_cond_of(c, hs[i]) implies #[trigger] cond_true(c, q) by { assert(k.contains(c)); }
+        }
+    }
+    if forall|i: int| 0 <= i < hs.len() ==> hdr_trigger_sat(#[trigger] hs[i], q) {
+        assert forall|c: HeaderCondition| k.contains(c) implies #[trigger] cond_true(c, q) by { let i = choose|i: int| 0 <= i < hs.len() && is_cond_of(c, #[trigger] hs[i]); assert(hdr_trigger_sat(hs[i], q)); }
+    }
+}
+pub proof fn lemma_header_exact<T>(m: HeaderMatcher<T>, q: Request)
+    requires m.wf(),
+    ensures forall|x: RouteRef<T>| #[trigger] header_answers(m, q, x) <==> m.holds(x) && header_sat(x, q) && sat_below(x, q),
+{
+    lemma_sub_exact(m.any_header, q);
+    let kf = hdr_kf::<T>();
+    assert forall|x: RouteRef<T>| #[trigger] header_answers(m, q, x) <==> m.holds(x) && header_sat(x, q) && sat_below(x, q) by {
+        if sub_answers(m.any_header, q, x) { assert(m.any_header.holds(x)); assert(rheaders(*x).len() == 0); }
+        if exists|cs: BTreeSet<HeaderCondition>| m.condition_groups@.contains_key(cs) && group_true(cs@, q) && #[trigger] sub_answers(m.condition_groups@[cs], q, x) {
+            let cs = choose|cs: BTreeSet<HeaderCondition>| m.condition_groups@.contains_key(cs) && group_true(cs@, q) && #[trigger] sub_answers(m.condition_groups@[cs], q, x);
+            lemma_sub_exact(m.condition_groups@[cs], q); assert(m.condition_groups@[cs].holds(x)); assert(map_holds(m.condition_groups@, x)); assert(kf(cs, x));
+            lemma_group_sat(cs@, rheaders(*x), q);
+        }
+        if m.holds(x) && header_sat(x, q) && sat_below(x, q) {
+            if m.any_header.holds(x) { assert(sub_answers(m.any_header, q, x)); }
+            else { let cs = choose|cs: BTreeSet<HeaderCondition>| m.condition_groups@.contains_key(cs) && #[trigger] m.condition_groups@[cs].holds(x); assert(kf(cs, x));
+                lemma_group_sat(cs@, rheaders(*x), q); lemma_sub_exact(m.condition_groups@[cs], q); assert(sub_answers(m.condition_groups@[cs], q, x)); }
+        }
+    }
+}
 impl<T> HeaderMatcher<T> {
     //@@ fn src/router/request_matcher/header.rs :: impl <T>HeaderMatcher<T> / fn new -> r
     //@| ensures r.wf(), r.cnt() == 0, forall|x: RouteRef<T>| !r.holds(x),
@@ -1868,6 +1974,41 @@ pub proof fn lemma_dt_batched<T>(o: DateTimeMatcher<T>, n: DateTimeMatcher<T>, i
     assert forall|x: RouteRef<T>| #[trigger] n.any_datetime.holds(x) implies dt_none(x) by { assert(o.any_datetime.holds(x)); }
 }
 
+
+// C01 exactness of the date-time layer (same shape; dt_cond_true: unit rtr's semantics of a date-time / time / weekday condition)
+pub uninterp spec fn dt_cond_true(c: DateTimeCondition, q: Request) -> bool;
+pub open spec fn dt_group_true(cs: Set<DateTimeCondition>, q: Request) -> bool { forall|c: DateTimeCondition| cs.contains(c) ==> #[trigger] dt_cond_true(c, q) }
+pub open spec fn datetime_answers<T>(m: DateTimeMatcher<T>, q: Request, x: RouteRef<T>) -> bool {
+    sub_answers(m.any_datetime, q, x) || exists|cs: BTreeSet<DateTimeCondition>| m.condition_groups@.contains_key(cs) && dt_group_true(cs@, q) && #[trigger] sub_answers(m.condition_groups@[cs], q, x)
+}
+// the date/time triggers of a rule: each of its date-time, weekday and time windows holds
+pub open spec fn datetime_sat<T>(x: RouteRef<T>, q: Request) -> bool {
+    &&& rdatetime(*x) matches Some(v) ==> dt_cond_true(DateTimeCondition::DateTimeRange(v), q)
+    &&& rweekdays(*x) matches Some(w) ==> dt_cond_true(DateTimeCondition::Weekdays(w), q)
+    &&& rtime(*x) matches Some(v) ==> dt_cond_true(DateTimeCondition::TimeRange(v), q)
+}
+pub proof fn lemma_datetime_exact<T>(m: DateTimeMatcher<T>, q: Request)
+    requires m.wf(),
+    ensures forall|x: RouteRef<T>| #[trigger] datetime_answers(m, q, x) <==> m.holds(x) && datetime_sat(x, q) && sat_below(x, q),
+{
+    lemma_sub_exact(m.any_datetime, q);
+    let kf = dt_kf::<T>();
+    assert forall|x: RouteRef<T>| #[trigger] datetime_answers(m, q, x) <==> m.holds(x) && datetime_sat(x, q) && sat_below(x, q) by {
+        if sub_answers(m.any_datetime, q, x) { assert(m.any_datetime.holds(x)); assert(dt_none(x)); }
+        if exists|cs: BTreeSet<DateTimeCondition>| m.condition_groups@.contains_key(cs) && dt_group_true(cs@, q) && #[trigger] sub_answers(m.condition_groups@[cs], q, x) {
+            let cs = choose|cs: BTreeSet<DateTimeCondition>| m.condition_groups@.contains_key(cs) && dt_group_true(cs@, q) && #[trigger] sub_answers(m.condition_groups@[cs], q, x);
+            lemma_sub_exact(m.condition_groups@[cs], q); assert(m.condition_groups@[cs].holds(x)); assert(map_holds(m.condition_groups@, x)); assert(kf(cs, x));
+            if rdatetime(*x) is Some { assert(cs@.contains(DateTimeCondition::DateTimeRange(rdatetime(*x).unwrap()))); }
+            if rweekdays(*x) is Some { assert(cs@.contains(DateTimeCondition::Weekdays(rweekdays(*x).unwrap()))); }
+            if rtime(*x) is Some { assert(cs@.contains(DateTimeCondition::TimeRange(rtime(*x).unwrap()))); }
+        }
+        if m.holds(x) && datetime_sat(x, q) && sat_below(x, q) {
+            if m.any_datetime.holds(x) { assert(sub_answers(m.any_datetime, q, x)); }
+            else { let cs = choose|cs: BTreeSet<DateTimeCondition>| m.condition_groups@.contains_key(cs) && #[trigger] m.condition_groups@[cs].holds(x); assert(kf(cs, x));
+                assert(dt_group_true(cs@, q)); lemma_sub_exact(m.condition_groups@[cs], q); assert(sub_answers(m.condition_groups@[cs], q, x)); }
+        }
+    }
+}
 impl<T> DateTimeMatcher<T> {
     //@@ fn src/router/request_matcher/datetime.rs :: impl <T>DateTimeMatcher<T> / fn new -> r
     //@| ensures r.wf(), r.cnt() == 0, forall|x: RouteRef<T>| !r.holds(x),
@@ -2109,6 +2250,33 @@ pub proof fn lemma_pq_batched<T>(o: PathAndQueryMatcher<T>, n: PathAndQueryMatch
     lemma_uniq_subset(o, n); lemma_pq_uniq_bridge(n);
     lemma_pq_counted_sub(o, n, false);
 }
+
+// C01 exactness of the path-and-query layer (the leaf). The answer is the contract verified for PathAndQueryMatcher::match_request in
+// unit rtr + unit tree (lookup == linear scan of the stored patterns): every route stored under a pattern that matches the request's
+// path, plus the static bucket of exactly that path.
+pub uninterp spec fn req_path(q: Request) -> Seq<char>;
+pub uninterp spec fn re_match(pattern: Seq<char>, haystack: Seq<char>) -> bool;
+pub open spec fn path_answers<T>(m: PathAndQueryMatcher<T>, q: Request, x: RouteRef<T>) -> bool {
+    ||| exists|key: (Seq<char>, Seq<char>)| #[trigger] m.regex_tree_rule.tmap2().contains_key(key) && re_match(key.0, req_path(q)) && m.regex_tree_rule.tmap2()[key] == x
+    ||| exists|p: String, i: String| p@ == req_path(q) && m.static_rules@.contains_key(p) && #[trigger] m.static_rules@[p]@.contains_key(i) && m.static_rules@[p]@[i] == x
+}
+// the path trigger of a rule: its literal equals the request's path-and-query, or its pattern matches it
+pub open spec fn path_sat<T>(x: RouteRef<T>, q: Request) -> bool { match rpath(*x) { PathKey::Static(p) => p == req_path(q), PathKey::Dynamic(pat) => re_match(pat, req_path(q)) } }
+pub proof fn lemma_path_exact<T>(m: PathAndQueryMatcher<T>, q: Request)
+    requires m.wf(),
+    ensures forall|x: RouteRef<T>| #[trigger] path_answers(m, q, x) <==> m.holds(x) && path_sat(x, q),
+{
+    axiom_string_ext();
+    let t = m.regex_tree_rule.tmap2(); let st = m.static_rules@;
+    assert forall|x: RouteRef<T>| #[trigger] path_answers(m, q, x) <==> m.holds(x) && path_sat(x, q) by {
+        if exists|key: (Seq<char>, Seq<char>)| #[trigger] t.contains_key(key) && re_match(key.0, req_path(q)) && t[key] == x { let key = choose|key: (Seq<char>, Seq<char>)| #[trigger] t.contains_key(key) && re_match(key.0, req_path(q)) && t[key] == x; assert(m.in_tree(x)); }
+        if exists|p: String, i: String| p@ == req_path(q) && st.contains_key(p) && #[trigger] st[p]@.contains_key(i) && st[p]@[i] == x { let (p, i) = choose|p: String, i: String| p@ == req_path(q) && st.contains_key(p) && #[trigger] st[p]@.contains_key(i) && st[p]@[i] == x; assert(m.in_static(x)); }
+        if m.holds(x) && path_sat(x, q) {
+            if m.in_tree(x) { let key = choose|key: (Seq<char>, Seq<char>)| #[trigger] t.contains_key(key) && t[key] == x; assert(rpath(*x) == PathKey::Dynamic(key.0)); }
+            else { let (p, i) = choose|p: String, i: String| st.contains_key(p) && #[trigger] st[p]@.contains_key(i) && st[p]@[i] == x; assert(rpath(*x) == PathKey::Static(p@)); }
+        }
+    }
+}
 impl<T> PathAndQueryMatcher<T> {
     //@@ fn src/router/request_matcher/path_and_query.rs :: impl <T>PathAndQueryMatcher<T> / fn new -> r
     //@| ensures r.wf(), r.cnt() == 0, forall|x: RouteRef<T>| !r.holds(x),
@@ -2235,6 +2403,48 @@ impl<T> PathAndQueryMatcher<T> {
     //@@ fn src/router/request_matcher/path_and_query.rs :: impl <T>PathAndQueryMatcher<T> / fn is_empty -> r
     //@| ensures r == (self.cnt() == 0),
 }
+
+// ================================================================ C02 corollary: answers depend only on the stored set
+// Two states of a layer that satisfy the invariant and store the same routes answer every request alike — in particular the state reached
+// by any history of insert / remove / batch_remove and the state of a layer rebuilt from the surviving rules (the mutator laws above
+// make their stored sets equal). One lemma per layer; the host layer includes the any-host policy.
+pub proof fn c02_scheme_rebuild<T>(a: SchemeMatcher<T>, b: SchemeMatcher<T>, q: Request)
+    requires a.wf(), b.wf(), forall|x: RouteRef<T>| a.holds(x) <==> b.holds(x),
+    ensures forall|x: RouteRef<T>| scheme_answers(a, q, x) <==> scheme_answers(b, q, x),
+{ lemma_scheme_exact(a, q); lemma_scheme_exact(b, q); }
+pub proof fn c02_host_rebuild<T>(a: HostMatcher<T>, b: HostMatcher<T>, q: Request)
+    requires a.wf(), b.wf(), forall|x: RouteRef<T>| a.holds(x) <==> b.holds(x), a.always_match_any_host == b.always_match_any_host,
+    ensures forall|x: RouteRef<T>| host_answers(a, q, x) <==> host_answers(b, q, x),
+{
+    lemma_host_exact(a, q); lemma_host_exact(b, q);
+    assert forall|x: RouteRef<T>| host_answers(a, q, x) <==> host_answers(b, q, x) by {
+        assert((exists|y: RouteRef<T>| a.holds(y) && host_sat_specific(y, q) && #[trigger] sat_below(y, q)) <==> (exists|y: RouteRef<T>| b.holds(y) && host_sat_specific(y, q) && #[trigger] sat_below(y, q))) by {
+            if (exists|y: RouteRef<T>| a.holds(y) && host_sat_specific(y, q) && #[trigger] sat_below(y, q)) { let y = choose|y: RouteRef<T>| a.holds(y) && host_sat_specific(y, q) && #[trigger] sat_below(y, q); assert(b.holds(y)); }
+            if (exists|y: RouteRef<T>| b.holds(y) && host_sat_specific(y, q) && #[trigger] sat_below(y, q)) { let y = choose|y: RouteRef<T>| b.holds(y) && host_sat_specific(y, q) && #[trigger] sat_below(y, q); assert(a.holds(y)); }
+        }
+        assert(host_exact(a, q, x) <==> host_exact(b, q, x));
+    }
+}
+pub proof fn c02_ip_rebuild<T>(a: IpMatcher<T>, b: IpMatcher<T>, q: Request)
+    requires a.wf(), b.wf(), forall|x: RouteRef<T>| a.holds(x) <==> b.holds(x),
+    ensures forall|x: RouteRef<T>| ip_answers(a, q, x) <==> ip_answers(b, q, x),
+{ lemma_ip_exact(a, q); lemma_ip_exact(b, q); }
+pub proof fn c02_method_rebuild<T>(a: MethodMatcher<T>, b: MethodMatcher<T>, q: Request)
+    requires a.wf(), b.wf(), forall|x: RouteRef<T>| a.holds(x) <==> b.holds(x),
+    ensures forall|x: RouteRef<T>| method_answers(a, q, x) <==> method_answers(b, q, x),
+{ lemma_method_exact(a, q); lemma_method_exact(b, q); }
+pub proof fn c02_header_rebuild<T>(a: HeaderMatcher<T>, b: HeaderMatcher<T>, q: Request)
+    requires a.wf(), b.wf(), forall|x: RouteRef<T>| a.holds(x) <==> b.holds(x),
+    ensures forall|x: RouteRef<T>| header_answers(a, q, x) <==> header_answers(b, q, x),
+{ lemma_header_exact(a, q); lemma_header_exact(b, q); }
+pub proof fn c02_datetime_rebuild<T>(a: DateTimeMatcher<T>, b: DateTimeMatcher<T>, q: Request)
+    requires a.wf(), b.wf(), forall|x: RouteRef<T>| a.holds(x) <==> b.holds(x),
+    ensures forall|x: RouteRef<T>| datetime_answers(a, q, x) <==> datetime_answers(b, q, x),
+{ lemma_datetime_exact(a, q); lemma_datetime_exact(b, q); }
+pub proof fn c02_path_rebuild<T>(a: PathAndQueryMatcher<T>, b: PathAndQueryMatcher<T>, q: Request)
+    requires a.wf(), b.wf(), forall|x: RouteRef<T>| a.holds(x) <==> b.holds(x),
+    ensures forall|x: RouteRef<T>| path_answers(a, q, x) <==> path_answers(b, q, x),
+{ lemma_path_exact(a, q); lemma_path_exact(b, q); }
 
 // ================================================================ Router (src/router/mod.rs)
 //@@ rename SchemeMatcher Sub
